@@ -227,7 +227,11 @@ class Log:
             self.bump(-1)
             self.add("exit_skipped", 17, False)
 
+    muted = False
+
     def add(self, kind, *data):
+        if self.muted:
+            return
         self.by_thread.setdefault(threading.get_ident(), []).append((kind,) + data + (obs_shared(),))
 
     def events(self, ident=None):
@@ -380,7 +384,7 @@ def reconstruct(events, raised_flags=None):
                 body.append(("raise",))
             ops.append(("try", body))
             cur_stack = [[]]
-            trace.append([0] + st + [int(raised)])
+            trace.append([0] + st + [int(raised), int(ev[2])])
     if cur_stack != [[]]:       # thread program without operation boundaries (concurrent part)
         while len(cur_stack) > 1:
             body = cur_stack.pop()
@@ -436,6 +440,50 @@ def hook():
             BOOM[0] = None
             BOOM_FIRED[0] = True
             raise Boom()
+
+
+FLAKY = [None]
+FLAKY_FIRED = [False]
+
+
+class FlakyErr(Exception):
+    pass
+
+
+class Flaky:
+    """an attribute value whose deep copy raises: at the k-th Flaky copy of the armed
+    operation (sequential part, global countdown) or always (`always`, concurrent part)"""
+    def __init__(self, always=False):
+        self.always = always
+
+    def __deepcopy__(self, memo):
+        if self.always:
+            raise FlakyErr()
+        if FLAKY[0] is not None:
+            FLAKY[0] -= 1
+            if FLAKY[0] == 0:
+                FLAKY[0] = None
+                FLAKY_FIRED[0] = True
+                raise FlakyErr()
+        return Flaky()
+
+    def __eq__(self, other):
+        return isinstance(other, Flaky)
+
+    __hash__ = None
+
+
+def plain_copy_fails():
+    """outside the library: does copy.deepcopy of a module-bearing plain value raise TypeError
+    (as it does in a fresh interpreter without a registration for ModuleType)?"""
+    LOG.muted = True
+    try:
+        copy.deepcopy([sys])
+        return False
+    except TypeError:
+        return True
+    finally:
+        LOG.muted = False
 
 
 def make_classes():
@@ -545,6 +593,12 @@ def op_pool(rng):
         "deepcopy_inst": lambda c: copy.deepcopy(c["n"]),
         "protect_list": lambda c: mutation.protect_via_deepcopy([sys, [c["n"]], os]),
         "inplace_kid": lambda c: c["n"].with_kid(Leaf(), _inplace=True),
+        "new_flaky": lambda c: c.__setitem__("n", Node(kids=[Leaf(ms=[Flaky(), sys])], extra=[Flaky(), {"k": Flaky()}],
+                                                       table={"a": Leaf(ms=[[Flaky()]])})),
+        "with_flaky": lambda c: c.__setitem__("n", c["n"].with_extra([Flaky(), sys, Flaky()])),
+        "update_extra": lambda c: c.__setitem__("n", c["n"].update(extra=(Flaky(),), tag="d")),
+        "reset_extra": lambda c: c.__setitem__("n", c["n"].reset_extra()),
+        "deepcopy_dict": lambda c: copy.deepcopy({"a": [c["n"]], "b": (c["n"],)}),
     }
     return ops
 
@@ -557,19 +611,23 @@ def _raising(_):
     raise Boom()
 
 
-def run_history(hist, user, created0, inject=None, boom=None):
+def run_history(hist, user, created0, inject=None, boom=None, flaky=None):
     """hist: list of op names.  inject = (op index, k): exception at the k-th line of that op.
     boom = (op index, k): __post_copy__ raises at its k-th call within that op.
     Returns dict(events, planned, lines per op)."""
     ops = op_pool(None)
-    base = raw("Node", kids=[raw("Leaf", ms=[sys])])      # used if the constructing operation is aborted
+    # used if the constructing operation is aborted; holds values whose copy can be made to raise
+    base = raw("Node", kids=[raw("Leaf", ms=[sys, Flaky()])], table={"a": raw("Leaf", ms=[Flaky()])}, extra=[Flaky()])
     reset_process_state(user, created0)
     LOG.clear()
     ctx, planned, nlines, fired_at, errors = {"n": base}, [], [], None, []
     for j, name in enumerate(hist):
         BOOM[0], BOOM_FIRED[0], TRANSFORM_FIRED[0] = None, False, False
+        FLAKY[0], FLAKY_FIRED[0] = None, False
         if boom and boom[0] == j:
             BOOM[0] = boom[1]
+        if flaky and flaky[0] == j:
+            FLAKY[0] = flaky[1]
         INJ.arm(inject[1] if inject and inject[0] == j else None)
         raised, err = False, None
         sys.settrace(INJ.glob)
@@ -583,13 +641,13 @@ def run_history(hist, user, created0, inject=None, boom=None):
         finally:
             sys.settrace(None)
         errors.append(err)
-        BOOM[0] = None
+        BOOM[0] = FLAKY[0] = None
         nlines.append(INJ.count)
         if INJ.fired is not None:
             fired_at = INJ.fired
-        planned.append(bool(INJ.fired is not None or BOOM_FIRED[0] or TRANSFORM_FIRED[0]))
+        planned.append(bool(INJ.fired is not None or BOOM_FIRED[0] or TRANSFORM_FIRED[0] or FLAKY_FIRED[0]))
         LOG.close_all()
-        LOG.add("op_end", raised)
+        LOG.add("op_end", raised, plain_copy_fails())
     return {"events": LOG.events()[:], "planned": planned, "nlines": nlines, "fired": fired_at, "errors": errors}
 
 
@@ -620,6 +678,19 @@ def gen_seq_cases(rng, tier):
         h = [rng.choice(starters)] + [rng.choice(names) for _ in range(rng.randint(1, 3))]
         j = rng.randrange(len(h))
         cases.append(dict(kind="boom", hist=h, user=(i % 4 == 3), created0=(i % 2 == 1), boom=(j, rng.randint(1, 4))))
+    # an attribute value of a spec instance raises in __deepcopy__ (1st .. 4th Flaky copy of the operation):
+    # every copying operation, after every starter (the fallback instance and new_flaky hold Flaky values)
+    copying = ["with_tag", "with_kid", "with_mod", "with_extra", "with_flaky", "update", "update_extra",
+               "transform_tag", "reset_kids", "reset_mods", "reset_extra", "deepcopy_1", "deepcopy_2", "deepcopy_3",
+               "deepcopy_dict", "deepcopy_inst", "protect_list", "new_flaky"]
+    i = 0
+    for op in copying:
+        for k in (1, 2) if quick else (1, 2, 3, 4):
+            for start in (["new_flaky"], []) if quick else (["new_flaky"], [], ["new_flaky", "with_flaky"]):
+                i += 1
+                h = start + [op, "deepcopy_inst"]
+                cases.append(dict(kind="flaky", hist=h, user=(i % 5 == 4), created0=(i % 2 == 1),
+                                  flaky=(len(start), k)))
     return cases
 
 
@@ -669,6 +740,11 @@ def conc_values(name):
         return lambda: ("protect", [Probe(sys), Probe(sys, boom=True), Probe(sys)])
     if name == "tiny":
         return lambda: ("protect", [sys])
+    if name == "flaky":      # copy of a spec instance aborted half way: an attribute value raises
+        return lambda: ("deepcopy", Node(kids=[Leaf(ms=[Probe(sys)])], extra=[Probe(os), Flaky(always=True)],
+                                         table={"a": Leaf(ms=[sys])}))
+    if name == "flaky_in_list":
+        return lambda: ("deepcopy", [{"k": Node(kids=[Leaf(ms=[Probe(sys), Flaky(always=True)])])}])
     raise AssertionError(name)
 
 
@@ -731,6 +807,7 @@ def run_schedule(names, user, created0, choose):
         n = len(names)
         return dict(names=names, user=user, created0=created0, sched=[], seen=[], completed=False,
                     note=f"run aborted: {type(e).__name__}: {e}"[:300], outs=[[1, 0]] * n, planned=[False] * n,
+                    plainfail=not user,
                     progs=[[] for _ in range(n)], errors=[repr(e)])
 
 
@@ -799,7 +876,7 @@ def _run_schedule(names, user, created0, choose):
         raised = w.exc is not None
         ok = (not raised) and w.state == "finished" and same_copy(inputs[i][1], results[i])
         outs.append([int(raised), int(ok)])
-        planned.append(isinstance(w.exc, Boom))
+        planned.append(isinstance(w.exc, (Boom, FlakyErr)))
     progs = []
     for w in S.workers:
         items, _ = reconstruct(LOG.events(w.ident))
@@ -808,14 +885,16 @@ def _run_schedule(names, user, created0, choose):
         progs.append(items)
     return dict(names=names, user=user, created0=created0, sched=sched, seen=seen, completed=completed,
                 note=note, outs=outs, planned=planned, progs=progs,
-                errors=[repr(w.exc) for w in S.workers if w.exc is not None and not isinstance(w.exc, Boom)]
-                + [repr(w.exc) for w in S.workers if isinstance(w.exc, Boom)])
+                plainfail=plain_copy_fails() if completed else (not user),
+                errors=[repr(w.exc) for w in S.workers if w.exc is not None and not isinstance(w.exc, (Boom, FlakyErr))]
+                + [repr(w.exc) for w in S.workers if isinstance(w.exc, (Boom, FlakyErr))])
 
 
 def conc_case_term(r):
     return (f"mkconc {cbool(r['user'])} {cbool(r['created0'])} "
             f"{clist(r['progs'], lambda p: clist(p, c_item))} {clist(r['planned'], cbool)} "
             f"{clist(r['sched'], lambda s: f'({s[0]}%nat, {cbool(s[1])})')} {cbool(r['completed'])} "
+            f"{cbool(r.get('plainfail', not r['user']))} "
             f"{clist(r['seen'], czlist)} {clist(r['outs'], czlist)}")
 
 
@@ -829,6 +908,46 @@ def preempt_chooser(preempts, nthreads):
                 return t
         return cur if cur in runnable else runnable[0]
     return choose
+
+
+def yield_chooser(switches, nthreads):
+    """pre-empt only when the running thread is parked inside a Probe copy (it is in the middle of a body) or
+    has just finished: at the k-th such occasion (k in switches) switch to the (o+1)-th other thread"""
+    occ = [0]
+
+    def choose(n, cur, runnable, live):
+        if cur not in runnable:
+            return runnable[0]
+        w = CUR_SCHED[0].workers[cur]
+        if w.pos[0] == "__deepcopy__":
+            k = occ[0]
+            occ[0] += 1
+            if k in switches:
+                t = (cur + 1 + switches[k]) % nthreads
+                if t in runnable:
+                    return t
+        return cur
+    return choose
+
+
+def enumerate_yield_schedules(names, user, created0, max_switches, max_occ=8):
+    """every schedule that switches threads only at Probe copies, at most max_switches times"""
+    nt = len(names)
+    singles = [(k, o) for k in range(max_occ) for o in range(nt - 1)]
+    plans = [{}]
+    for m in range(1, max_switches + 1):
+        plans += [dict(c) for c in itertools.combinations(singles, m) if len({x[0] for x in c}) == m]
+    runs, keys = [], set()
+    for pl in plans:
+        for first in range(nt):
+            r = run_schedule(names[first:] + names[:first], user, created0, yield_chooser(pl, nt))
+            key = (first, tuple(r["sched"]))
+            if key in keys:
+                continue
+            keys.add(key)
+            r["plan"] = ["switch at Probe copies", sorted(pl.items()), "rotation", first]
+            runs.append(r)
+    return runs, len(plans) * nt
 
 
 def random_chooser(rng, p_switch):
@@ -881,16 +1000,27 @@ def eval_conc(runs, tag="c"):
                     case_type="conc_case")
 
 
+def with_line(lineno):
+    import linecache
+    return linecache.getline(MUT_FILE, lineno).strip().startswith("with ")
+
+
 def run_seq_case(c):
-    res = run_history(c["hist"], c["user"], c["created0"], inject=c.get("inject"), boom=c.get("boom"))
+    res = run_history(c["hist"], c["user"], c["created0"], inject=c.get("inject"), boom=c.get("boom"),
+                      flaky=c.get("flaky"))
     term, prog, trace = seq_case_term(c["user"], c["created0"], res["events"], res["planned"])
     c = dict(c, term=term, prog=prog, trace=trace, planned=res["planned"], fired=res["fired"], nlines=res["nlines"],
              errors=res["errors"])
     pc = None
     if res["fired"] is not None and res["fired"][3] == MUT_FILE and res["fired"][0] in PC_TEXT:
         pc = pc_of(res["fired"][:3])
-    if any(e[0] == "exit_skipped" for e in res["events"]):
-        pc = 17     # exception at the with line: __exit__ was never called (same effect as at its first line)
+    f = res["fired"]
+    if any(e[0] == "exit_skipped" for e in res["events"]) and f is not None and f[3] == MUT_FILE \
+            and f[0] == "protect_via_deepcopy" and f[2] >= 2 and with_line(f[1]):
+        # exception injected at the `with` line of protect_via_deepcopy while LEAVING the block: CPython does
+        # not call __exit__ (same effect as an exception at its first line).  An __exit__ skipped for any
+        # other reason (library code that enters without a with/finally) is a violation like any other.
+        pc = 17
     c["abort_pc"] = pc
     return c
 
@@ -902,11 +1032,11 @@ def shrink_seq(c):
     for _ in range(8):
         improved = False
         for j in range(len(cur["hist"]) - 1, 0, -1):
-            if cur.get("inject") and cur["inject"][0] == j or cur.get("boom") and cur["boom"][0] == j:
+            if any(cur.get(key) and cur[key][0] == j for key in ("inject", "boom", "flaky")):
                 continue
             h = cur["hist"][:j] + cur["hist"][j + 1:]
             cand = dict(cur, hist=h)
-            for key in ("inject", "boom"):
+            for key in ("inject", "boom", "flaky"):
                 if cand.get(key) and cand[key][0] > j:
                     cand[key] = (cand[key][0] - 1, cand[key][1])
             cand = run_seq_case(cand)
@@ -922,7 +1052,7 @@ def shrink_seq(c):
 
 def describe_seq(c):
     return {"kind": "seq", "hist": c["hist"], "user": c["user"], "created0": c["created0"],
-            "inject": c.get("inject"), "boom": c.get("boom"), "fired": c.get("fired"),
+            "inject": c.get("inject"), "boom": c.get("boom"), "flaky": c.get("flaky"), "fired": c.get("fired"),
             "abort_pc": c.get("abort_pc"), "planned": c.get("planned"),
             "outcome_per_operation": c.get("errors"),
             "unplanned_exceptions": [e for e, p in zip(c.get("errors") or [], c.get("planned") or []) if e and not p],
@@ -965,7 +1095,8 @@ def load_corpus():
                 if r.get("kind") == "seq":
                     out.append(dict(kind="corpus", hist=r["hist"], user=r["user"], created0=r["created0"],
                                     inject=tuple(r["inject"]) if r.get("inject") else None,
-                                    boom=tuple(r["boom"]) if r.get("boom") else None))
+                                    boom=tuple(r["boom"]) if r.get("boom") else None,
+                                    flaky=tuple(r["flaky"]) if r.get("flaky") else None))
     return out
 
 
@@ -986,7 +1117,8 @@ def main(tier, replay=None):
         if r.get("kind") == "seq":
             c = run_seq_case(dict(hist=r["hist"], user=r["user"], created0=r["created0"],
                                   inject=tuple(r["inject"]) if r.get("inject") else None,
-                                  boom=tuple(r["boom"]) if r.get("boom") else None))
+                                  boom=tuple(r["boom"]) if r.get("boom") else None,
+                                  flaky=tuple(r["flaky"]) if r.get("flaky") else None))
             bad, logs = eval_seq([c], tag="r")
             print("replay:", "still failing code=%s" % bad[0][1] if bad else "passes now", logs)
             print("observed now:", c["trace"])
@@ -1017,7 +1149,8 @@ def main(tier, replay=None):
             chk.violation(f"exception outside every observed operation while running history={c['hist']}: "
                           f"{type(e).__name__}: {e}"[:300],
                           {"kind": "seq", "hist": c["hist"], "user": c["user"], "created0": c["created0"],
-                           "inject": c.get("inject"), "boom": c.get("boom"), "error": repr(e)},
+                           "inject": c.get("inject"), "boom": c.get("boom"), "flaky": c.get("flaky"),
+                           "error": repr(e)},
                           sig={"kind": "seq-crash"}, no_input=False)
     timings["seq_run_s"] = round(time.time() - t0, 1)
     t0 = time.time()
@@ -1047,7 +1180,8 @@ def main(tier, replay=None):
         small = shrink_seq(c)
         unplanned = [e for e, pl in zip(small.get("errors") or [], small.get("planned") or []) if e and not pl]
         what = (f"{'property violated' if code == 2 else 'model and implementation differ'}: history={small['hist']} "
-                f"user_entry={small['user']} inject={small.get('inject')} boom={small.get('boom')}"
+                f"user_entry={small['user']} inject={small.get('inject')} boom={small.get('boom')} "
+                f"flaky_value={small.get('flaky')}"
                 + (f" exception escaped from the library: {unplanned[0]}" if unplanned else ""))
         chk.violation(what, describe_seq(small), sig={"kind": "seq", "abort_pc": small.get("abort_pc")},
                       no_input=(code != 2))
@@ -1070,13 +1204,15 @@ def main(tier, replay=None):
     conf = []
     if quick:
         conf = [(["flat", "flat"], False, False, 2, 1, 40), (["nested", "flat"], False, True, 2, 12, 25),
-                (["flat2", "tiny"], True, False, 1, 1, 10), (["boom", "flat"], False, False, 1, 1, 10)]
+                (["flat2", "tiny"], True, False, 1, 1, 10), (["boom", "flat"], False, False, 1, 1, 10),
+                (["flaky", "flat"], False, False, 1, 1, 12)]
     else:
         conf = [(["flat", "flat"], False, False, 2, 1, 150), (["nested", "flat"], False, True, 2, 1, 240),
                 (["inst", "flat2"], False, False, 2, 2, 200), (["flat2", "tiny"], True, False, 2, 1, 60),
                 (["boom", "flat"], False, False, 2, 1, 90), (["boom", "nested"], False, True, 1, 1, 30),
                 (["flat", "flat", "flat"], False, False, 2, 2, 300), (["tiny", "nested", "flat"], False, True, 2, 12, 200),
-                (["flat", "tiny", "boom"], True, False, 2, 4, 60)]
+                (["flat", "tiny", "boom"], True, False, 2, 4, 60), (["flaky", "flat"], False, False, 2, 2, 120),
+                (["flat", "inst"], False, True, 2, 3, 120)]
     enum_stats = []
     for names, user, created0, max_pre, stride2, budget in conf:
         rs, nplans = enumerate_schedules(names, user, created0, max_pre, rng, budget, stride2)
@@ -1085,10 +1221,22 @@ def main(tier, replay=None):
                            "max_preemptions": max_pre, "pair_stride": stride2, "plans": nplans[0],
                            "plans_run_within_time_budget": nplans[1],
                            "distinct_schedules": len(rs)})
+    yconf = [(["flat", "inst"], False, True, 3), (["flat", "flaky"], False, False, 2),
+             (["flaky_in_list", "flat2"], False, True, 2), (["flat", "inst"], True, False, 2)]
+    if not quick:
+        yconf += [(["nested", "inst"], False, False, 3), (["flaky", "flaky_in_list"], False, True, 3),
+                  (["flat", "inst", "flaky"], False, False, 2), (["inst", "inst"], False, True, 3)]
+    for names, user, created0, msw in yconf:
+        rs, nplans = enumerate_yield_schedules(names, user, created0, msw, max_occ=6 if quick else 8)
+        runs += rs
+        enum_stats.append({"threads": names, "user_entry": user, "singleton_exists": created0,
+                           "switches_only_at_Probe_copies": True, "max_switches": msw, "plans": nplans,
+                           "distinct_schedules": len(rs), "thread_order": "every rotation"})
     n_enum = len(runs)
     for i in range(150 if quick else 2500):
         names = rng.choice([["flat", "flat"], ["nested", "flat2"], ["inst", "flat"], ["flat", "tiny", "nested"],
-                            ["boom", "flat2"], ["flat2", "flat", "flat"]])
+                            ["boom", "flat2"], ["flat2", "flat", "flat"], ["flat", "inst"], ["flaky", "flat2"],
+                            ["flaky_in_list", "inst"]])
         if quick and len(names) > 2:
             names = names[:2]
         r = run_schedule(names, i % 5 == 4, i % 2 == 0, random_chooser(rng, rng.choice([0.1, 0.3, 0.6])))
